@@ -29,8 +29,10 @@ def weight(img: darsia.Image, weight: Union[float, int, darsia.Image]) -> darsia
 
     """
     weighted_img = img.copy()
-    if isinstance(weight, float) or isinstance(weight, int):
-        weighted_img.img *= weight
+    if isinstance(weight, (float, int, np.floating, np.integer)):
+        # NOTE: Also accept numpy scalars, e.g., the ratio of two integrals of float32 data
+        # as used in Geometry.normalize.
+        weighted_img.img = weighted_img.img * weight
 
     elif isinstance(weight, darsia.Image):
         equal_coordinate_system, log = darsia.check_equal_coordinatesystems(
